@@ -159,8 +159,10 @@ def prop(pid, rules, explanation, declined=(), assumptions=()):
 
 def run(pid, f, cfg, tier):
     out = []
-    for g in PROPS[pid]["rules"]:
-        out.extend(g(f, cfg, tier))
+    # one view normally; two when an inherent method hides a trait method that the type also implements itself (facts.views)
+    for fv in (f.views() if hasattr(f, "views") else [f]):
+        for g in PROPS[pid]["rules"]:
+            out.extend(g(fv, cfg, tier))
     # merge results of the same rule
     merged = {}
     for r in out:
@@ -265,10 +267,10 @@ prop("C14", L_INV() + [sel("copyshape"), sel("nonzero", fn=r"(copy_|clone_from|C
 prop("C15", L_INV() + [sel("flipshape"), sel("lockstep"), sel("noshift"), sel("layout", fn=r"get_unchecked_row_mut|<rule>"), sel("guard", fn=r"translate"), sel("units", fn=r"(translate|flip)"), sel("dup", fn=r"(Translate|translate|flip)")] + L_ROWCUR("RowsMut") + L_VIEWS(True) + [sel("zero", fn=CTORS), sel_dyn(A_TRANS)],
      "clauses only: guard and permutation clauses of C15 - (R-FLIPSHAPE) flip_rows swaps next() with next_back() of one rows_mut() cursor, flip_cols reverses every row; mid <= (num_cols, num_rows) with the right units; translate.rs moves elements only with swap_with_slice / rotate_left / reverse on rows obtained from the trait (no element lost or duplicated); the unchecked row getters it relies on address row*stride .. +num_cols on every implementor (R-LAYOUT L-ROW); no cross-axis comparison of a mid-point with the other dimension (R-UNITS u1, also for equalities); (R-LOCKSTEP) in the cycle-leader loop of translate_with_wrap the row cursor and the running column offset are induction variables of one loop that are advanced on exactly the same iterations and re-initialised at the same loop depth (a necessary condition of 'row k of a cycle is rotated by k*col_mid'); the layers both algorithms run on: RowsMut and rows_mut() (R-CURSOR, R-LAYOUT) and the mutable window constructors ('on any array or view').",
      declined=["the position formula new[(c,r)] == old[((c+mc)%C,(r+mr)%R)] and index validity inside the cycle-leader loop (number theory, DESIGN 2.2): R-LOCKSTEP decides only that the two cursors move together, not that the walk visits every row once"])
-prop("C16", L_INV() + [sel("sortkey", fn=r"sort_.*row"), sel("deleg", fn=r"sort_.*row"), sel("sortshape", fn=r"sort_.*row"), sel("guard", fn=r"sort_.*row"), sel("units", fn=r"sort_.*row"), sel("dup", fn=r"sort_.*row")] + L_ROWCUR("RowsMut") + L_VIEWS(True) + [sel("layout", fn=r"(Index<usize>|IndexMut<usize>|<rule>)"), sel("zero", fn=CTORS), sel_dyn(r"sort_.*row")],
+prop("C16", L_INV() + [sel("sortkey", fn=r"sort_.*row"), sel("deleg", fn=r"sort_.*row"), sel("sortshape", fn=r"sort_.*row|^sort::"), sel("guard", fn=r"sort_.*row"), sel("units", fn=r"sort_.*row"), sel("dup", fn=r"sort_.*row")] + L_ROWCUR("RowsMut") + L_VIEWS(True) + [sel("layout", fn=r"(Index<usize>|IndexMut<usize>|<rule>)"), sel("zero", fn=CTORS), sel_dyn(r"sort_.*row")],
      "clauses only: sort-by-row family - (R-DELEG) each wrapper reaches the core of its own axis and stability with its index forwarded; (R-SORTSHAPE) s1 side sort of matching stability, s3 the key line is self[row] (resp. self.col(col)) of the given index, s2 comparator/key argument order, s4 the swap trace is applied to every row, s5 user code only before the first write; (R-GUARD) row < num_rows; (R-DUP) only ptr::swap moves elements; the layers the family runs on: the key row self[row] (R-LAYOUT of Index<usize> on the three receivers), RowsMut/rows_mut() through which the trace is applied, and the mutable window constructors.",
      declined=["build_swap_trace turning the permutation into transpositions; sortedness/stability as observed (std's contract given s1-s2)"])
-prop("C17", L_INV() + [sel("layout", fn=r"swap_rows|<rule>"), sel("nth", fn=r"swap_rows"), sel("sortkey", fn=r"sort_.*col"), sel("deleg", fn=r"sort_.*col"), sel("sortshape", fn=r"sort_.*col"), sel("guard", fn=r"sort_.*col"), sel("units", fn=r"sort_.*col"), sel("dup", fn=r"sort_.*col")] + L_ROWCUR("RowsMut") + L_COLCUR("Col") + L_VIEWS(True) + [sel("zero", fn=CTORS), sel_dyn(r"sort_.*col")],
+prop("C17", L_INV() + [sel("layout", fn=r"swap_rows|<rule>"), sel("nth", fn=r"swap_rows"), sel("sortkey", fn=r"sort_.*col"), sel("deleg", fn=r"sort_.*col"), sel("sortshape", fn=r"sort_.*col|^sort::"), sel("guard", fn=r"sort_.*col"), sel("units", fn=r"sort_.*col"), sel("dup", fn=r"sort_.*col")] + L_ROWCUR("RowsMut") + L_COLCUR("Col") + L_VIEWS(True) + [sel("zero", fn=CTORS), sel_dyn(r"sort_.*col")],
      "clauses only: sort-by-column family - as C16 with columns: wrappers reach the *_col cores (R-DELEG, R-UNITS u4), the trace is applied with swap_rows - whose three implementations move exactly the two named rows (R-LAYOUT L-SWAPROWS with the object's own stride, R-NTH for the default) - col < num_cols; the layers the family runs on: the key column self.col(col) (Col cursor and col() constructors, R-CURSOR/R-LAYOUT), RowsMut/rows_mut() under the default swap_rows, and the mutable window constructors.",
      declined=["as C16"])
 prop("C18", [sel("zero", fn=VIEWS), sel("serde")] + L_CELLS() + L_INV(),
@@ -304,8 +306,8 @@ for _pid in ("C01", "C03", "C04", "C08", "C09", "C13", "C14", "C15", "C16", "C17
     PROPS[_pid]["explanation"] += _SHADOW
 for _pid in ("C13", "C14", "C15", "C16", "C17"):
     PROPS[_pid]["explanation"] += " Premise layer: the owned array's shape invariant at every exit point (R-UNWIND, R-LEAK, R-LEAK-DRAIN, R-STALE, R-ZERO) - the in-place algorithms compute their unchecked offsets from the dimensions."
-PROPS["C04"]["explanation"] += " (R-ENCAPS) the raw span `v` of a Rows / RowsMut / Col / ColMut cursor - which includes the cells between the rows of a strided view - is used for more than its length only by the cursor's own impls; (R-FILL) an override of fill on the mutable view writes the whole backing span only under `stride == num_cols` or `data.len() == num_cols * num_rows`."
-PROPS["C13"]["explanation"] += " (R-FILL) an override of fill on the mutable view writes the whole backing span only under a test that establishes contiguity."
+PROPS["C04"]["explanation"] += " (R-ENCAPS) the raw span `v` of a Rows / RowsMut / Col / ColMut cursor - which includes the cells between the rows of a strided view - is used for more than its length only by the cursor's own impls; (R-FILL) a method of the mutable view applies a whole-slice mutator (fill, copy_from_slice, swap_with_slice, reverse, rotate_*, sort*, iter_mut ..) to its whole backing span only under `stride == num_cols` or `data.len() == num_cols * num_rows`."
+PROPS["C13"]["explanation"] += " (R-FILL) a method of the mutable view applies a whole-slice mutator to its whole backing span only under a test that establishes contiguity."
 for _pid in ("C06", "C11"):
     PROPS[_pid]["explanation"] += " TooDee::reserve / reserve_exact hand the caller's count to Vec::reserve undiminished (Vec::reserve is relative to the length already)."
 for _pid in ("C07", "C12", "C01"):
